@@ -1,21 +1,24 @@
 #!/bin/bash
 # selftest/run.sh [PROP...] : every patch in the must-fail corpus must make its property's check
-# report a VIOLATION (exit 1) on a scratch copy of /repo (outside /repo and /verif, removed afterwards).
-# Exit 0 iff all patches are caught; prints one line per patch.
+# report a VIOLATION (exit 1) on a scratch copy of the repository (outside /repo and /verif, removed
+# afterwards). Exit 0 iff all patches are caught; prints one line per patch.
+# env: SELFTEST_SRC (default /repo), PVBIN (default <verif>/bin/plushvc)
 export GOFLAGS=-mod=mod GOPROXY=off GOSUMDB=off GOTOOLCHAIN=local
-props="$@"; [ -z "$props" ] && props=$(ls /verif/selftest | grep '^C')
+V="$(cd "$(dirname "$0")/.." && pwd)"
+SRC="${SELFTEST_SRC:-/repo}"
+BIN="${PVBIN:-$V/bin/plushvc}"
+props="$@"; [ -z "$props" ] && props=$(ls "$V/selftest" | grep '^C')
 fail=0
 for p in $props; do
-  for patch in /verif/selftest/$p/*.patch; do
+  for patch in "$V"/selftest/$p/*.patch; do
     [ -f "$patch" ] || continue
     scratch=$(mktemp -d /tmp/pvself.XXXXXX)
-    trap 'rm -rf "$scratch"' EXIT
-    (cd /repo && git ls-files -z | xargs -0 cp --parents -t "$scratch")
+    (cd "$SRC" && git ls-files -z | xargs -0 cp --parents -t "$scratch")
     if ! (cd "$scratch" && patch -s -p1 < "$patch"); then echo "STALE  $p $(basename $patch)"; fail=1; rm -rf "$scratch"; continue; fi
     if ! (cd "$scratch" && go build ./... 2>/dev/null); then echo "NOBUILD $p $(basename $patch)"; rm -rf "$scratch"; fail=1; continue; fi
     ev=$(mktemp -d /tmp/pvselfv.XXXXXX)
-    mkdir -p $ev/ledger; cp /verif/props.json /verif/known_findings.jsonl $ev/; cp /verif/ledger/$p.json $ev/ledger/
-    out=$(/verif/bin/plushvc -repo "$scratch" -verif "$ev" -prop $p -tier quick 2>&1); rc=$?
+    mkdir -p $ev/ledger; cp "$V/props.json" "$V/known_findings.jsonl" $ev/; cp "$V/ledger/$p.json" $ev/ledger/; cp -r "$V/replay" $ev/
+    out=$(VERIF_NO_REPLAY=${SELFTEST_NO_REPLAY:-1} "$BIN" -repo "$scratch" -stdlib "$V/stdlib" -verif "$ev" -prop $p -tier quick 2>&1); rc=$?
     if [ $rc -eq 1 ] && echo "$out" | grep -q '^VIOLATION'; then
       echo "CAUGHT $p $(basename $patch): $(echo "$out" | grep '^VIOLATION' | head -1 | sed 's/.*# //')"
     else
